@@ -266,6 +266,16 @@ def run_case(case, ctx):
         ok, y3 = ctx.call(dict(base, op="frozen"), qenv.call, q2, x3)
         if ok and (s > 0).all():
           check_output(ctx, case, dict(base, op="frozen"), x3, y3, qenv.as_np(q2.scale), "frozen scale, new data")
+        elif ok and np.shape(y3) == np.shape(s):
+          # a channel recorded with scale 0 (all-zero / pruned when the scale was taken): exposed scale x code is 0
+          # whatever the later data holds
+          ctx.count("frozen_zero_scale_channels_checked")
+          z = (s == 0)
+          y3f = np.asarray(y3, dtype=np.float64)
+          if z.any() and not (y3f[z] == 0).all():
+            i = int(np.argmax(np.where(z, np.abs(np.nan_to_num(y3f, nan=np.inf)), 0)))
+            ctx.violation(dict(base, op="frozen", kind="frozen_zero_scale_channel_output_not_zero"),
+                          "x=%r -> %r in a channel whose exposed (frozen) scale is 0" % (float(x3.flat[i]), float(y3f.flat[i])), None)
   # power-of-two equivariance
   nzm = np.abs(xf[xf != 0])
   no_bounds = kw.get("min_po2_exponent") is None and kw.get("max_po2_exponent") is None
